@@ -350,6 +350,12 @@ class SScal:
         self.im = z3.simplify(im) if im is not None else z3.RealVal(0)
         self.dtype = dtype
         self.integral = integral   # SInt if the value is known to be that integer
+        # isinstance(c, numbers.Real) must answer as the real value class would: real-valued scalars are SReal
+        z = self.im
+        if z3.is_rational_value(z) and z.numerator_as_long() == 0 and (dtype is None or not np.issubdtype(np.dtype(dtype), np.complexfloating)):
+            self.__class__ = SReal
+        else:
+            self.__class__ = SScal
 
     @staticmethod
     def lift(o):
@@ -381,7 +387,7 @@ class SScal:
         return z3.is_rational_value(self.im) and self.im.numerator_as_long() == 0
 
     def __add__(self, o):
-        if isinstance(o, AMat):
+        if isinstance(o, AMat) or hasattr(o, "_matmat"):
             return NotImplemented
         o = SScal.lift(o)
         return SScal(self.re + o.re, self.im + o.im, self.dtype or o.dtype)
@@ -389,7 +395,7 @@ class SScal:
     __radd__ = __add__
 
     def __sub__(self, o):
-        if isinstance(o, AMat):
+        if isinstance(o, AMat) or hasattr(o, "_matmat"):
             return NotImplemented
         o = SScal.lift(o)
         return SScal(self.re - o.re, self.im - o.im, self.dtype or o.dtype)
@@ -442,7 +448,7 @@ class SScal:
         return SScal(alg.rdiv(self.re, den), -alg.rdiv(self.im, den), self.dtype)
 
     def __truediv__(self, o):
-        if isinstance(o, AMat):
+        if isinstance(o, AMat) or hasattr(o, "_matmat"):
             return NotImplemented
         o = SScal.lift(o)
         sc = getattr(self, "_scaled", None)
@@ -547,7 +553,12 @@ class SScal:
         return f"SScal({self.re}, {self.im})"
 
 
-numbers.Number.register(SScal)
+class SReal(SScal):
+    """a scalar whose imaginary part is syntactically zero and whose dtype (if any) is real"""
+
+
+numbers.Complex.register(SScal)
+numbers.Real.register(SReal)
 
 
 # ------------------------------------------------------------------------------------------------ arrays
